@@ -272,7 +272,10 @@ impl<T: Socket + ?Sized> Worker<T> {
             if i > 0 {
                 std::thread::sleep(DEFAULT_DUPLICATE_DELAY);
             }
-            self.socket.send(packet)?;
+            let sent = self.socket.send(packet);
+            if i == 0 {
+                sent?;
+            }
         }
 
         Ok(())
